@@ -138,12 +138,11 @@ _add("ps_enc_quoted_mixedcase", t, body, funcs=FP, timeout=600)
 
 
 # ---- powershell: delimiting by the enclosing quoted string -------------------------------------------
-def ps_quoted(data):
+def ps_quoted(data, start=3):
     # data = 'x "powershell ' + 2 free + '" ' + 1 free ; expected end: the closing double quote
     ok, hits = k_contract(find_powershell_strings, data, "find_powershell_strings")
     if not ok:
         return False, True
-    start = 3
     close = -1
     for i in range(start, len(data)):
         if data[i] == 34:
@@ -161,5 +160,31 @@ def ps_quoted(data):
     return True, True
 
 
+def ps_squoted(data):
+    ok, hits = k_contract(find_powershell_strings, data, "find_powershell_strings")
+    if not ok:
+        return False, True
+    close = -1
+    for i in range(1, len(data)):
+        if data[i] == 39:
+            close = i
+            break
+    # a double quote inside takes precedence in the look-back only if it comes later; keep to the single-quote case
+    if close < 0 or any(c == 34 for c in data):
+        return True, False
+    ps = [h for h in hits if h.type == "shell.powershell" and h.start == 1]
+    if not ps:
+        return hx.fail("find_powershell_strings: quoted powershell string not reported", data=data, hits=hits), True
+    for h in ps:
+        if h.end != close:
+            return hx.fail("find_powershell_strings: does not end at the close of the enclosing quoted string", data=data, hit=h, want=close), True
+    return True, True
+
+
 _add("ps_in_double_quotes", Tmpl(b'x "powershell ', (2, "nonnul"), b'" ', 1), ps_quoted, funcs=FP, timeout=600,
+     extra_pre="h0 != 45 and h0 != 47 and h1 != 45 and h1 != 47")
+
+_add("ps_in_double_quotes_at_offset_0", Tmpl(b'"powershell ', (2, "nonnul"), b'" ', 1), lambda d: ps_quoted(d, 1), funcs=FP, timeout=600,
+     extra_pre="h0 != 45 and h0 != 47 and h1 != 45 and h1 != 47")
+_add("ps_in_single_quotes_at_offset_0", Tmpl(b"'pwsh ", (2, "nonnul"), b"' ", 1), lambda d: ps_squoted(d), funcs=FP, timeout=600,
      extra_pre="h0 != 45 and h0 != 47 and h1 != 45 and h1 != 47")
